@@ -69,6 +69,15 @@ def run(repo, rep):
     from . import c11
 
     rep.run_borrowed(c11, {"C11-d2": "C13-f"}, repo)
+    rep.clause("C13-ac", "the (width, height) pairs returned by the operator getters are unpacked in that order in the graph rewrites (an exchanged pair indexes HWIO weights out of range for non-square kernels)")
+    from .shared import pair_unpack_lint as _pul
+
+    if _pul(repo, rep, "C13-ac", ["tflite_graph_optimiser", "graph_optimiser_util", "softmax", "lstm"]) < 4:
+        raise AnalysisError("pair unpackings in the graph rewrites: fewer than 4 found")
+    rep.clause("C13-ab", "tensors fused into one live range have one size (LiveRange.add_tensor asserts it): in-place reuse keeps its reviewed conjuncts, among them equal element types [rule shared with C03-g]")
+    from . import c12 as _c12
+
+    rep.run_borrowed(_c12, {"C12-d": "C13-ab"}, repo, only_sites=("_get_ifm_to_fuse",))
 
 
 # ------------------------------------------------------------------ a
